@@ -4,6 +4,7 @@ import Bmc.Proofs.GenDec.V2Session
 import Bmc.Proofs.GenDec.AES128CBC
 import Bmc.Proofs.GenDec.Message
 import Bmc.Proofs.EndToEnd.SessionC04
+import Bmc.Proofs.EndToEnd.HistoryC11
 #print axioms Bmc.Proofs.C04.accept_sound
 #print axioms Bmc.Proofs.C04.unauthenticated_or_foreign_is_retry
 #print axioms Bmc.Proofs.C04.accepted_satisfies_mac
@@ -19,3 +20,5 @@ import Bmc.Proofs.EndToEnd.SessionC04
 #print axioms Bmc.Proofs.GenDec.AES128CBC_gen_eq
 #print axioms Bmc.Proofs.GenDec.Message_gen_eq
 #print axioms Bmc.Proofs.EndToEnd.generated_loop_accepts_only_authentic
+#print axioms Bmc.Proofs.EndToEnd.sendCommand_result_justified
+#print axioms Bmc.Proofs.EndToEnd.generated_history_results
